@@ -27,7 +27,7 @@ def tla_set(xs):
     return "{" + ", ".join(json.dumps(x) if isinstance(x, str) else str(x) for x in xs) + "}"
 
 
-def gen_cfg(steps=(2,), leads=(0,), tbs=(0,), ginds=(0,), rsteps=(0,), edits=1, acts=("scalar",), focus=("expr",), sim=False, clean=False):
+def gen_cfg(steps=(2,), leads=(0,), tbs=(0,), ginds=(0,), rsteps=(0,), edits=1, acts=("scalar",), focus=("expr",), sim=False, clean=False, gi0=0, rs0=0):
     return """SPECIFICATION Spec
 CONSTANTS
   Steps = %s
@@ -35,6 +35,8 @@ CONSTANTS
   TBs = %s
   GInds = %s
   RSteps = %s
+  GI0 = %d
+  RS0 = %d
   MaxEdits = %d
   Acts = %s
   Focus = %s
@@ -42,7 +44,7 @@ CONSTANTS
   Clean = %s
 INVARIANTS Inv_Consistent
 CHECK_DEADLOCK FALSE
-""" % (tla_set(steps), tla_set(leads), tla_set(tbs), tla_set(ginds), tla_set(rsteps), edits, tla_set(acts),
+""" % (tla_set(steps), tla_set(leads), tla_set(tbs), tla_set(ginds), tla_set(rsteps), gi0, rs0, edits, tla_set(acts),
        tla_set(focus), "TRUE" if sim else "FALSE", "TRUE" if clean else "FALSE")
 
 
@@ -159,32 +161,33 @@ def jobs_for(ctx):
     if not ctx.thorough:
         # exhaustive, one edit: every scalar of the full space for expr (one TLC process per indentation step);
         # the text fields (other value classes, escapes) at the common indentation step
-        for st in (1, 2, 4):
-            jobs.append(dict(tag="x-expr-s%d" % st, cfg=gen_cfg(focus=("expr",), steps=(st,), leads=(0, 2), tbs=(0, 1))))
+        jobs.append(dict(tag="x-expr-s2", cfg=gen_cfg(focus=("expr",), steps=(2,), leads=(0, 2), tbs=(0, 1))))
+        for st in (1, 4):
+            jobs.append(dict(tag="x-expr-s%d" % st, cfg=gen_cfg(focus=("expr",), steps=(st,), leads=(0, 2), tbs=(0,))))
         for f in ("alert", "annotations.v", "labels.v"):
             jobs.append(dict(tag="x-" + f.replace(".", ""), cfg=gen_cfg(focus=(f,), steps=(2,), leads=(0,), tbs=(0,))))
         jobs.append(dict(tag="x-small", cfg=gen_cfg(focus=("record", "for", "labels.k", "annotations.k"), steps=(2,), leads=(0,), tbs=(0,))))
         for k in range(3):
-            jobs.append(dict(tag="sim%d" % k, simulate=40, depth=7, seed=s * 100 + k,
+            jobs.append(dict(tag="sim%d" % k, simulate=30, depth=7, seed=s * 100 + k,
                              cfg=gen_cfg(ginds=(0, 2, 4), rsteps=(0, 2), edits=6, acts=simacts, focus=ALL_FOCUS, sim=True, **full)))
-        jobs.append(dict(tag="wrap", simulate=150, depth=4, seed=s * 100 + 40,
+        jobs.append(dict(tag="wrap", simulate=100, depth=4, seed=s * 100 + 40,
                          cfg=gen_cfg(edits=3, acts=("wrap", "base"), focus=ALL_FOCUS, sim=True)))
         for k in range(2):
-            jobs.append(dict(tag="wsim%d" % k, simulate=40, depth=7, seed=s * 100 + 50 + k,
+            jobs.append(dict(tag="wsim%d" % k, simulate=30, depth=7, seed=s * 100 + 50 + k,
                              cfg=gen_cfg(ginds=(0, 2), rsteps=(0, 2), edits=6, acts=wrapacts, focus=ALL_FOCUS, sim=True, **full)))
     else:
-        for f in ("expr", "alert", "annotations.v", "labels.v"):
-            for g in (0, 2, 4):
-                jobs.append(dict(tag="x-%s-g%d" % (f.replace(".", ""), g), cfg=gen_cfg(focus=(f,), ginds=(g,), edits=2 if g else 1,
-                                 acts=("scalar", "indent") if g else ("scalar",), **full)))
+        # exhaustive, one edit, full space: expr at every list indentation, the text fields at two of them
+        for f, gs in (("expr", ((0, 0), (2, 0), (4, 2))), ("alert", ((0, 0), (2, 2))), ("annotations.v", ((0, 0), (4, 0))), ("labels.v", ((0, 0),))):
+            for g, r in gs:
+                jobs.append(dict(tag="x-%s-g%d%d" % (f.replace(".", ""), g, r), cfg=gen_cfg(focus=(f,), gi0=g, rs0=r, **full)))
         jobs.append(dict(tag="x-small", cfg=gen_cfg(focus=("record", "for", "labels.k", "annotations.k"), **full)))
         for k in range(10):
-            jobs.append(dict(tag="sim%d" % k, simulate=900, depth=8, seed=s * 100 + k,
+            jobs.append(dict(tag="sim%d" % k, simulate=300, depth=8, seed=s * 100 + k,
                              cfg=gen_cfg(ginds=(0, 2, 4), rsteps=(0, 2), edits=7, acts=simacts, focus=ALL_FOCUS, sim=True, **full)))
-        jobs.append(dict(tag="wrap", simulate=3000, depth=5, seed=s * 100 + 40,
+        jobs.append(dict(tag="wrap", simulate=1500, depth=5, seed=s * 100 + 40,
                          cfg=gen_cfg(edits=4, acts=("wrap", "base"), focus=ALL_FOCUS, sim=True)))
         for k in range(6):
-            jobs.append(dict(tag="wsim%d" % k, simulate=700, depth=8, seed=s * 100 + 50 + k,
+            jobs.append(dict(tag="wsim%d" % k, simulate=250, depth=8, seed=s * 100 + 50 + k,
                              cfg=gen_cfg(ginds=(0, 2), rsteps=(0, 2), edits=7, acts=wrapacts, focus=ALL_FOCUS, sim=True, **full)))
     return jobs
 
